@@ -1,6 +1,7 @@
 from __future__ import annotations
 
 import logging
+import threading
 from abc import ABC, abstractmethod
 from collections.abc import Sequence
 from time import sleep
@@ -528,6 +529,7 @@ class EnsembleServlet(Servlet):
         self._qouts = []
         self._uid_to_results = {}
         self._threads = []
+        self._members_stopped = threading.Event()
 
     def start(self, q_in, q_out):
         """
@@ -607,9 +609,11 @@ class EnsembleServlet(Servlet):
         qouts = self._qouts
         catalog = self._uid_to_results
         fail_fast = self._fail_fast
+        members_stopped = self._members_stopped
 
         nn = len(qouts)
         while True:
+            stopping = members_stopped.is_set()
             all_empty = True
             for idx, q in enumerate(qouts):
                 while not q.empty():
@@ -623,11 +627,10 @@ class EnsembleServlet(Servlet):
                     all_empty = False
                     v = q.get()
                     if v is None:
-                        qout.put(v)
-                        return
-                        # TODO: this is a little problematic---should we
-                        # wait for all ensemble members to see `None`, thus
-                        # "driving out" all regular work, before exiting?
+                        # A worker of this member has exited. The other members
+                        # (and this member's other workers) may still be delivering
+                        # results, which must be taken out of their queues.
+                        continue
 
                     uid, y = v
                     # `y` can be an exception object or a regular result.
@@ -667,12 +670,18 @@ class EnsembleServlet(Servlet):
                         qout.put((uid, y))
 
             if all_empty:
+                if stopping:
+                    # All the members had stopped before this round of checks,
+                    # and they have left nothing in their output queues.
+                    qout.put(None)
+                    return
                 sleep(0.005)  # TODO: what is a good duration?
 
     def stop(self):
         assert self._started
         for s in self._servlets:
             s.stop()
+        self._members_stopped.set()
         self._qin.put(None)
         for t in self._threads:
             t.join()
